@@ -74,9 +74,6 @@ def run_task(task):
   for b, w in enumerate(words):
     for li, l in enumerate(w):
       acts[li * hold:(li + 1) * hold, b] = letters[l]
-  if tier != 'quick':
-    # one long bang-bang member appended as extra steps on member 0
-    pass
   keys = jp.stack([jax.random.PRNGKey(b % K) for b in range(B)])
   wenv = training.wrap(env, episode_length=1000)
   reset = jax.jit(wenv.reset)
@@ -151,6 +148,31 @@ def run_task(task):
     t, b = np.argwhere(bad)[0]
     viol('C16:unit-quaternion', 'link rotation norm off by %.3g at step %d of '
          'word %s' % (qn[t, b], t, [int(x) for x in words[b]]))
+  if tier != 'quick':
+    # long bang-bang histories: 8 members, 1000 steps, sign flips every 25
+    # steps with member-specific phase
+    T2, B2 = 1000, 8
+    a2 = np.zeros((T2, B2, A), np.float32)
+    for b in range(B2):
+      for t in range(T2):
+        a2[t, b] = 1.0 if ((t + 3 * b) // 25) % 2 == 0 else -1.0
+    k2 = jp.stack([jax.random.PRNGKey(100 + b) for b in range(B2)])
+    s2 = reset(k2)
+    _, (fin2b, qn2b, done2b) = jroll(s2, jp.asarray(a2))
+    fin2b, qn2b = np.asarray(fin2b), np.asarray(qn2b)
+    res['states'] += T2 * B2
+    res['transitions'] += T2 * B2
+    res['paths'] += B2
+    res['evaluations'] += T2 * B2
+    res['nontrivial'] += T2 * B2
+    if not fin2b.all():
+      t, b = np.argwhere(~fin2b)[0]
+      viol('C16:non-finite', 'non-finite value at step %d of the 1000-step '
+           'bang-bang history %d' % (t, b))
+    if not (qn2b <= 1e-5).all():
+      t, b = np.argwhere(~(qn2b <= 1e-5))[0]
+      viol('C16:unit-quaternion', 'link rotation norm off by %.3g at step %d '
+           'of the bang-bang history %d' % (qn2b[t, b], t, b))
   res['samples'].append(dict(env=name, backend=backend, members=B, steps=T,
                              example_word=[int(x) for x in words[B // 2]],
                              auto_resets=int(done.sum())))
